@@ -58,15 +58,17 @@ func (app *App) startHTTPServer(port int) *http.Server {
 	router.Handle("/debug/pprof/block", pprof.Handler("block"))
 
 	router.HandleFunc("/api", app.handleAPI)
+	// the routes for "all" come before the ones with a name: the router takes
+	// the first route that matches, and {id} / {stream} also match "all"
 	router.HandleFunc("/api/destinations", app.handleDestinationAdd).Methods("PUT", "POST", "UPDATE")
-	router.HandleFunc(`/api/destinations/{id:[a-zA-Z0-9\-\/]+}`, app.handleDestinationDelete).Methods("DELETE")
 	router.HandleFunc("/api/destinations/all", app.handleDestinationShowAll).Methods("GET")
 	router.HandleFunc("/api/destinations/all", app.handleDestinationDeleteAll).Methods("DELETE")
+	router.HandleFunc(`/api/destinations/{id:[a-zA-Z0-9\-\/]+}`, app.handleDestinationDelete).Methods("DELETE")
 	router.HandleFunc(`/api/destinations/{id:[a-zA-Z0-9\-\/]+}`, app.handleDestinationShow).Methods("GET")
 	router.HandleFunc("/api/streams", app.handleStreamAdd).Methods("PUT", "POST", "UPDATE")
-	router.HandleFunc(`/api/streams/{stream:[a-zA-Z0-9\-\/]+}`, app.handleStreamDelete).Methods("DELETE")
 	router.HandleFunc("/api/streams/all", app.handleStreamShowAll).Methods("GET")
 	router.HandleFunc("/api/streams/all", app.handleStreamDeleteAll).Methods("DELETE")
+	router.HandleFunc(`/api/streams/{stream:[a-zA-Z0-9\-\/]+}`, app.handleStreamDelete).Methods("DELETE")
 	router.HandleFunc(`/api/streams/{stream:[a-zA-Z0-9\-\/]+}`, app.handleStreamShow).Methods("GET")
 	router.HandleFunc("/healthcheck", app.handleHealthcheck).Methods("GET")
 	router.HandleFunc(`/ts/{feed:[a-zA-Z0-9\-\/]+}`, app.handleTs)
